@@ -7,4 +7,6 @@ export PATH="$PATH:/root/.cargo/bin"
 export CARGO_NET_OFFLINE=true
 verus --version >/dev/null || exit 1
 ( cd /repo/oxidize-pdf-core && CARGO_TARGET_DIR=/verif/build/kani-target timeout 1500 cargo kani -Z function-contracts -Z stubbing --output-format terse --harness c01_hex_digit_value >/verif/build/setup_kani.log 2>&1 ) || echo "warning: kani warm-up did not complete (checks will build on first use)"
+# replay crate (stand-ins and witness replay run the real code natively): built once here so that no quick check pays the cold build
+( cp /repo/Cargo.lock /verif/replay/Cargo.lock && cd /verif/replay && CARGO_TARGET_DIR=/verif/build/replay-target timeout 1500 cargo build --offline >/verif/build/setup_replay.log 2>&1 ) || echo "warning: replay crate warm-up did not complete (checks will build on first use)"
 exit 0
